@@ -259,6 +259,23 @@ pub fn run(_prop: &str, cases: &[String]) -> RunOut {
         match t[0] {
             "tok" => run_tok(&unhex(t[1]), &unhex(t[2]), &mut out, line),
             "tokref" => run_tokref(&unhex(t[1]), &mut out, line),
+            "tokget" => {
+                use spl_generic_token::token::{GenericTokenAccount, GenericTokenMint};
+                let data = unhex(t[1]);
+                fn o<T>(r: Option<Option<T>>, f: impl Fn(T) -> String) -> String { match r { None => "panic".into(), Some(None) => "~".into(), Some(Some(x)) => f(x) } }
+                macro_rules! five { ($A:ty, $M:ty) => { format!("{}:{}:{}:{}:{}",
+                    o(guarded(|| <$A>::unpack_account_mint(&data).copied()), |k| hex(k.as_ref())),
+                    o(guarded(|| <$A>::unpack_account_owner(&data).copied()), |k| hex(k.as_ref())),
+                    o(guarded(|| <$A>::unpack_account_amount(&data)), |n| n.to_string()),
+                    o(guarded(|| <$M>::unpack_mint_supply(&data)), |n| n.to_string()),
+                    o(guarded(|| <$M>::unpack_mint_decimals(&data)), |n| n.to_string())) } }
+                let s = format!("T={} X={}", five!(spl_generic_token::token::Account, spl_generic_token::token::Mint),
+                    five!(spl_generic_token::token_2022::Account, spl_generic_token::token_2022::Mint));
+                let err = if s.contains("panic") { Some("a trait-level checked getter panicked".to_string()) } else { None };
+                out.stats.bump("tokget");
+                if data.len() == 82 || data.len() >= 165 { out.stats.nontrivial_case(line); }
+                out.push(s, err.map_or(Ok(()), Err));
+            }
             "tokconst" => {
                 // the public constants and id helpers, compared with the regenerated model constants
                 let ids = spl_generic_token::spl_token_ids();
@@ -345,6 +362,7 @@ pub fn generate_c17(tier: &str, rng: &mut Rng) -> Vec<String> {
                 for p in [token_id().to_bytes(), token22_id().to_bytes()] {
                     v.push(format!("tok {} {}", hex(&d), hex(&p)));
                 }
+                v.push(format!("tokget {}", hex(&d)));
             }
         }
     }
@@ -369,6 +387,7 @@ pub fn generate_c17(tier: &str, rng: &mut Rng) -> Vec<String> {
         let d = gen_buffer(rng);
         let p = gen_prog(rng);
         v.push(format!("tok {} {}", hex(&d), hex(&p)));
+        if rng.chance(1, 3) { v.push(format!("tokget {}", hex(&d))); }
     }
     v
 }
